@@ -1,4 +1,105 @@
+(* C31 — LFS produce rewriting changes only the flagged values.
+   Statements about model/Rewrite.v for ALL inputs (records, batches, states, oracle
+   answers).  External code is universally quantified: [decode_rec] (kmsg
+   Record.ReadFrom), [decompress]/[compress] (kgo), [crc32c], [hashf] (digests),
+   [enc_env] (lfs.EncodeEnvelope); the two round-trip laws used by C31_batch_valid are
+   explicit premises.  Level: partial — the step from the rewritten bytes back to records
+   goes through those oracles, and the composition over the partitions of a request is
+   by the state-extension lemma only (see checks/C31.py).  Proofs: proofs/RewriteProofs.v. *)
 From KS Require Import lib.Base lib.RecVarint model.Rewrite proofs.RewriteProofs.
 Open Scope Z_scope.
-Example C31_nonvacuous : True.
-Proof. exact I. Qed.
+
+(* (1) Every unflagged record of a batch comes out identical (all fields, incl. null vs
+   empty keys/values/header values), order and count preserved; a batch in which no record
+   is flagged keeps its Raw bytes; a partition in which nothing is flagged keeps its bytes. *)
+Theorem C31_unflagged_unchanged :
+  forall decode_rec decompress compress crc32c hashf enc_env cfg,
+  (forall st rs rs' st' ch,
+     process_records hashf enc_env cfg st rs = Ok (rs', st', ch) ->
+     length rs' = length rs /\
+     Forall2 (fun r r' => flagged r = false -> r' = r) rs rs') /\
+  (forall st bt bt' st',
+     process_batch decode_rec decompress compress crc32c hashf enc_env cfg st bt = Ok (bt', st', false) -> bt' = bt) /\
+  (forall st p p' st',
+     process_partition decode_rec decompress compress crc32c hashf enc_env cfg st p = Ok (p', st', false) -> p' = p).
+Proof. exact unflagged_unchanged. Qed.
+Print Assumptions C31_unflagged_unchanged.
+
+(* (2) A flagged record keeps attributes, timestamp delta, offset delta and key, loses
+   exactly its LFS_BLOB headers, and its value is the encoding of an envelope for this
+   bucket whose key names an object that — in the store at any later point [stF] of the same
+   request — holds exactly the original value, with size and SHA-256 of that value.  The
+   object keys handed out by the oracle are pairwise distinct (fresh UUIDs). *)
+Theorem C31_flagged_envelope :
+  forall (hashf : Z -> bytes -> bytes) (enc_env : envelope -> bytes) cfg rs st rs' st' ch stF,
+  process_records hashf enc_env cfg st rs = Ok (rs', st', ch) ->
+  NoDup (map fst (u_supply st)) -> ext st' stF ->
+  Forall2 (rec_rel hashf enc_env cfg (u_store stF)) rs rs'.
+Proof. exact process_records_spec. Qed.
+Print Assumptions C31_flagged_envelope.
+
+(* the state only grows along a request: what (2) calls "any later point" includes the
+   end of every later batch of the request *)
+Theorem C31_state_extends :
+  forall decode_rec decompress compress crc32c hashf enc_env cfg st bt bt' st' ch,
+  process_batch decode_rec decompress compress crc32c hashf enc_env cfg st bt = Ok (bt', st', ch) -> ext st st'.
+Proof. exact process_batch_ext. Qed.
+Print Assumptions C31_state_extends.
+
+(* (3) A rewritten batch is the kmsg encoding of a header that differs from the input's
+   only in Length, CRC, the three codec bits and the payload: Length = len(bytes) - 12,
+   CRC = crc32c(bytes[21:]) (both as int32), NumRecords = number of records, payload =
+   compress(codec, encode(records')) where records' is what (1)/(2) describe. *)
+Theorem C31_batch_valid :
+  forall decode_rec decompress compress crc32c hashf enc_env cfg st b raw b' raw' st',
+  process_batch decode_rec decompress compress crc32c hashf enc_env cfg st (b, raw) = Ok ((b', raw'), st', true) ->
+  exists rs rs' used,
+    batch_records decode_rec decompress b = Some rs /\
+    process_records hashf enc_env cfg st rs = Ok (rs', st', true) /\
+    compress_records compress ((b_attrs b) mod 8) (enc_records rs') = (b_recs b', used) /\
+    raw' = enc_batch b' /\ same_header b b' /\
+    b_len b' = wrap32 (zlen raw' - 12) /\
+    b_crc b' = wrap32 (crc32c (skipn 21 raw')) /\
+    b_attrs b' = wrap16 (b_attrs b - (b_attrs b) mod 8 + used) /\
+    b_num b' = wrap32 (zlen rs').
+Proof. exact process_batch_changed. Qed.
+Print Assumptions C31_batch_valid.
+
+(* ... and, if kmsg decodes what lfsEncodeRecord wrote and the compressor round-trips and
+   reports the codec it was asked for, the rewritten batch keeps its codec and decodes —
+   with the proxy's own lfsDecodeBatchRecords — to exactly records'. *)
+Theorem C31_batch_redecodes :
+  forall decode_rec decompress compress crc32c hashf enc_env,
+  (forall r, wf_rec r -> decode_rec (enc_record r) = Some r) ->
+  (forall c raw out used, 1 <= c <= 4 -> compress c raw = (out, used) ->
+                          used = c /\ decompress c out = Some raw) ->
+  forall cfg st st' b raw b' raw',
+  process_batch decode_rec decompress compress crc32c hashf enc_env cfg st (b, raw) = Ok ((b', raw'), st', true) ->
+  0 <= (b_attrs b) mod 8 <= 4 -> -32768 <= b_attrs b < 32768 ->
+  exists rs rs',
+    batch_records decode_rec decompress b = Some rs /\
+    process_records hashf enc_env cfg st rs = Ok (rs', st', true) /\
+    (Forall wf_rec rs' -> zlen rs' < 2147483648 ->
+     (b_attrs b') mod 8 = (b_attrs b) mod 8 /\ batch_records decode_rec decompress b' = Some rs').
+Proof. exact rewritten_batch_decodes. Qed.
+Print Assumptions C31_batch_redecodes.
+
+(* non-vacuity: a batch [unflagged; flagged; unflagged] is rewritten; the middle value
+   becomes the envelope, the others are untouched, one object is stored *)
+Definition d_env (e : envelope) : bytes := 123 :: e_key e ++ [58] ++ e_sha e ++ [125].
+Definition d_hash (a : Z) (b : bytes) : bytes := a :: 35 :: b.
+Example C31_nonvacuous :
+  let cfg := mkCfg [98] [112] 1000 [] 5242880 in
+  let r1 := mkRec 0 5 0 None (Some []) [mkHeader [97] None] in
+  let r2 := mkRec 0 (-3) 1 (Some []) (Some [1;2;3]) [mkHeader s_LFS_BLOB (Some []); mkHeader [97] (Some [])] in
+  let r3 := mkRec (-1) 7 2 (Some [9]) None [] in
+  let st := mkUst [] [([107;49], [116])] [] 0 [] in
+  match process_records d_hash d_env cfg st [r1; r2; r3] with
+  | Ok (rs', st', ch) =>
+      ch = true /\ nth 0 rs' r2 = r1 /\ nth 2 rs' r2 = r3 /\
+      r_hdrs (nth 1 rs' r1) = [mkHeader [97] (Some [])] /\
+      r_val (nth 1 rs' r1) = Some (d_env (mkEnv [98] [107;49] 3 (d_hash 0 [1;2;3]) (d_hash 0 [1;2;3]) s_sha256 [] [] [116] [112])) /\
+      u_store st' = [([107;49], [1;2;3])]
+  | _ => False
+  end.
+Proof. vm_compute. repeat split. Qed.
